@@ -486,7 +486,7 @@ var c16Spec = fw.Spec[c16Case]{
 	Workers: 1,
 	// the only nondeterminism is Go's map iteration order inside Resource (code under test): a confirmation replay may be retried
 	ReplayAttempts: 40,
-	Rule: "complete enumeration: all 128 subsets of the seven actions as controller method sets (generated types) x with/without Uses() (two distinct middleware, closures of one function literal, for every action, implemented or not) x base in {/, /api/, \"\", /{t}/ (a variable in the base path)} x outside a group / inside Group(/g) / inside Group(/) (group middleware passed with spare capacity) (+ outside a group on a router with a route cache of capacity 1 or 2, all probes issued twice in two orders); the same controller (whose Uses() table is one shared map) registered twice; registration order inside Resource is Go map order: it is DRIVEN through the insertion order of the exported rux.RESTFulActions and OBSERVED from rux's own debug print, and registration is repeated until every permutation of the implemented actions (k<=4, thorough k<=6 on the plain base; all rotations of two base orders beyond) has been observed; " +
+	Rule: "complete enumeration: all 128 subsets of the seven actions as controller method sets (generated types) x with/without Uses() (two distinct middleware, closures of one function literal, for every action, implemented or not) x base in {/, /api/, \"\", /{t}/ (a variable in the base path)} x outside a group / inside Group(/g) / inside Group(/) (group middleware passed with spare capacity) (+ outside a group on a router with a route cache of capacity 1 or 2, all probes issued twice in two orders); the same controller (whose Uses() table is one shared map) registered twice; the registration order inside Resource is DRIVEN through the insertion order of the exported rux.RESTFulActions map and OBSERVED from rux's own debug print; registration is repeated until every permutation of the implemented actions (k<=4, thorough k<=6 on the plain base; all rotations of two base orders beyond) has been observed, or until >12 differently driven registrations all showed one and the same order of >=2 actions (the order then does not come from the map: counter registration_order_independent_of_map_order); " +
 		"per observed order: Routes()/NamedRoutes() equal the documented table exactly, all 9 methods x 8 probe paths dispatch as the reference resolver says over that table (create never served by show, nothing else reachable), per-action middleware runs only for its action; non-pointer / non-struct / wrong-shaped controllers; non-trivial = a distinct (subset, order) registration",
 	Assume: []string{"runs single-threaded: RESTFulActions, the debug switch and the colour output are process-global", "Go's small-map iteration starts at a random offset of the insertion order; an order not seen within 400 draws is reported as a cap, never as a violation"},
 	Bounds: func(tier string) map[string]any {
